@@ -103,6 +103,13 @@ func (SubsScenario) GenCase(r *rand.Rand, prop string) interface{} {
 		if chance(r, 10) {
 			own[0] = append(own[0], "other.>")
 		}
+		// one list explicit, the other left to the default (nil)
+		switch r.IntN(8) {
+		case 0:
+			own[0] = nil
+		case 1:
+			own[1] = nil
+		}
 		c.Owned = &own
 	}
 	// end-to-end requests
